@@ -44,6 +44,7 @@ EXPLANATION = (
     "(N4) upload() exchanges only the scheme prefix of the caller's URL (no unbounded str.replace on the wire URL). "
     "(N5) the request line sent (parsed.normalized) has itself passed validate_url. "
     "(N6) on the server the text given to <Request>.from_line derives from the read buffer only by cutting at the terminator and decoding: no trimming / case-folding / replacing call lies on its definition chain (helpers inlined)."
+    ' (N7) on the definition chain from response.redirect_url to the URL handed to the next fetch there is no quoting / unquoting / replacing / case-folding call.'
 )
 
 
@@ -329,5 +330,8 @@ def run(chk: Check) -> None:
     rule_n4(chk)
     rule_n5(chk)
     received_line_fidelity(chk, "N6", "the server parses other components than the client put on the wire")
+    from .common import redirect_target_fidelity
+
+    redirect_target_fidelity(chk, "N7")
     chk.trusted = ["CPython ast parser", "engine abstract evaluator", "urllib.parse: .hostname is lower-cased and unbracketed, urlunparse joins the six components"]
     chk.assumptions = ["idempotence / meaning preservation over all URLs is not decided; only the listed component samples are evaluated abstractly"]
